@@ -319,9 +319,9 @@ class QuantityMachine(Machine):
                 op["plain"] = rng.choice([None, None, "a", "b"])
         elif r < 0.82:
             name = rng.choice(["value", "value_unit", "value_unit", "units", "abse", "rele",
-                               "str", "repr"])
+                               "str", "repr", "value_dtype"])
             op = {"op": "query", "name": name, "a": a}
-            if name == "value_unit":
+            if name in ("value_unit", "value_dtype"):
                 op["unit"] = self._target_unit(rng, fam)
         else:
             op = self._gen_inplace(rng, a)
@@ -337,8 +337,12 @@ class QuantityMachine(Machine):
 
     def _gen_inplace(self, rng, a):
         fam = self.pool[a]["fam"]
-        name = rng.choice(["to", "to", "to", "rebase", "abse", "rele", "to_quantity"])
+        name = rng.choice(["to", "to", "to", "rebase", "abse", "rele", "to_quantity",
+                           "to_baseunits"])
         op = {"op": "inplace", "name": name, "a": a}
+        if name == "to_baseunits":
+            # the unit object of another live quantity as the target (an alias hazard)
+            op["b"] = self._pick(rng, fam)
         if name in ("to", "to_quantity"):
             op["unit"] = self._target_unit(rng, fam)
         if name in ("abse", "rele"):
@@ -623,6 +627,8 @@ class QuantityMachine(Machine):
                         a.value()
                     elif name == "value_unit":
                         a.value(op["unit"])
+                    elif name == "value_dtype":
+                        a.value(op["unit"], dtype=float)
                     elif name == "units":
                         a.units()
                     elif name == "abse":
@@ -643,6 +649,8 @@ class QuantityMachine(Machine):
                         a.to(op["unit"])
                     elif name == "to_quantity":
                         a.to(Quantity(2.0, op["unit"]))
+                    elif name == "to_baseunits":
+                        a.to(self._slot(op.get("b", 0))["q"].baseunits)
                     elif name == "rebase":
                         a.rebase()
                     elif name == "abse":
@@ -696,7 +704,7 @@ class QuantityMachine(Machine):
             if key in op and isinstance(op[key], int) and op[key] % n == i:
                 roles.append(name)
         if op.get("op") == "inplace":
-            return "bystander"
+            return "unit-donor" if "right" in roles else "bystander"
         return "+".join(roles) if roles else "bystander"
 
     def _relation_c07(self, op, i):
